@@ -41,10 +41,10 @@ for p in props:
         "engine": "vp.engine",
         "level_claimed": {
             "category": "exploration",
-            "text": meta.get("LEVEL_TEXT", "Generated-input search (Hypothesis / exhaustive small-domain enumeration) against an explicit oracle; the property held on every explored case, absence of violations outside the explored set is not claimed."),
+            "text": meta.get("LEVEL_TEXT", "Generated-input search (Hypothesis @given / rule-based state machines / exhaustive small-domain enumeration) against an explicit oracle; the property held on every explored case, absence of violations outside the explored set is not claimed. Explored: " + " ".join(str(meta.get("RULE", "")).split())[:1500]),
             "design_ref": meta.get("DESIGN_REF", "DESIGN.md section 2, %s" % pid),
         },
-        "level_note": meta.get("LEVEL_NOTE", "Trusted: numpy/scipy reference arithmetic, the oracle in vp/checks/%s.py and vp/ref, Hypothesis generation; numba absent so @jit kernels run as plain Python; sizes bounded as stated in the evidence rule." % pid.lower()),
+        "level_note": meta.get("LEVEL_NOTE", ("Trusted: numpy/scipy reference arithmetic, the oracle in vp/checks/%s.py and vp/ref, Hypothesis generation; numba absent so @jit kernels run as plain Python; sizes bounded as stated in the evidence rule. Assumptions: " % pid.lower()) + " | ".join(" ".join(str(a).split()) for a in meta.get("ASSUMPTIONS", []))[:2500]),
         "technique": meta.get("TECHNIQUE", "property-based testing (Hypothesis) against a reference model"),
     })
 
